@@ -287,6 +287,48 @@ def stmt_end(toks, k):
 
 
 CFG_DROP = ('tracing', 'log')
+CFG_ON = ('transaction', 'acceptor')
+
+
+def eval_cfg(pred):
+    """value of a cfg predicate (normalised text, no blanks) built from feature="x", all(..), any(..), not(..) over CFG_ON / CFG_DROP; None if it mentions anything else"""
+    pos = [0]
+
+    def parse():
+        rest = pred[pos[0]:]
+        m = re.match(r'feature="([a-z0-9_-]+)"', rest)
+        if m:
+            pos[0] += m.end()
+            f = m.group(1)
+            if f in CFG_ON:
+                return True
+            if f in CFG_DROP:
+                return False
+            raise ValueError(f)
+        for kw in ('all', 'any', 'not'):
+            if rest.startswith(kw + '('):
+                pos[0] += len(kw) + 1
+                vals = []
+                while pred[pos[0]] != ')':
+                    vals.append(parse())
+                    if pred[pos[0]] == ',':
+                        pos[0] += 1
+                pos[0] += 1
+                if kw == 'all':
+                    return all(vals)
+                if kw == 'any':
+                    return any(vals)
+                if len(vals) != 1:
+                    raise ValueError('not')
+                return not vals[0]
+        raise ValueError(rest[:20])
+    try:
+        v = parse()
+        if pos[0] != len(pred):
+            return None
+        return v
+    except (ValueError, IndexError):
+        return None
 
 
 def drop_cfg_features(toks, log, features=CFG_DROP):
@@ -325,6 +367,23 @@ def drop_cfg_features(toks, log, features=CFG_DROP):
                     log.append(('R1', 'drop cfg_attr(feature=%s)' % m.group(1), t.line))
                     k = e + 1
                     continue
+                m = re.match(r'#\[cfg\((.*)\)\]$', a)
+                if m:
+                    # R12b: a statement-level cfg predicate over the features the units are generated with (transaction, acceptor on; tracing, log off) is
+                    # evaluated: a false one drops the statement, a true one only the attribute; a predicate that mentions anything else is left alone
+                    val = eval_cfg(m.group(1))
+                    if val is not None:
+                        if val:
+                            log.append(('R12', 'cfg(%s) holds for the unit\'s features: attribute dropped, statement kept' % m.group(1)[:60], t.line))
+                            k = e + 1
+                        else:
+                            s_ = _next_sig(toks, e)
+                            se = stmt_end(toks, s_)
+                            dropped = toks[k:se + 1]
+                            log.append(('R12', 'cfg(%s) does not hold for the unit\'s features: statement dropped' % m.group(1)[:60], t.line))
+                            out.append(Tok('ws', '\n' * text(dropped).count('\n'), t.pos, t.line))
+                            k = se + 1
+                        continue
         out.append(t)
         k += 1
     return out
